@@ -294,6 +294,12 @@ def removal_closure_cases(tier):
     for combo in allc:
         for bad in ("array-no-items", "dangling-prop"):
             out.append({"edges": {n: list(map(list, e)) for n, e in zip(nodes, combo)}, "bad": bad})
+    # a schema that fails only in the SECOND stage (model processing): composed of itself / of something that is not there;
+    # declared after or before the schemas that use it
+    for combo in allc[:400 if tier != "thorough" else 4000]:
+        for bad in ("self-allof", "allof-dangling"):
+            for first in (False, True):
+                out.append({"edges": {n: list(map(list, e)) for n, e in zip(nodes, combo)}, "bad": bad, "bad_first": first})
     return out
 
 
@@ -317,8 +323,14 @@ def removal_closure(case):
         schemas[n] = {"type": "object", "properties": props}
     if case["bad"] == "array-no-items":
         schemas["Bad"] = {"type": "object", "properties": {"x": {"type": "array"}}}
+    elif case["bad"] == "self-allof":
+        schemas["Bad"] = {"allOf": [ref("Bad"), {"type": "object", "properties": {"x": {"type": "integer"}}}]}
+    elif case["bad"] == "allof-dangling":
+        schemas["Bad"] = {"allOf": [ref("Nope"), {"type": "object", "properties": {"x": {"type": "integer"}}}]}
     else:
         schemas["Bad"] = {"type": "object", "properties": {"x": {"$ref": "#/components/schemas/Nope"}}}
+    if case.get("bad_first"):
+        schemas = {"Bad": schemas["Bad"], **{k: v for k, v in schemas.items() if k != "Bad"}}
     doc = _base(schemas=schemas)
     try:
         data = _parse(doc)
@@ -1394,4 +1406,53 @@ def path_order(case):
         k = diff[0]
         d = "\n".join(list(difflib.unified_diff((f0.get(k) or "").splitlines(), (f1.get(k) or "").splitlines(), lineterm="", n=0))[:8])
         return f"paths in order {case['order']}: generated files {diff[:4]} differ from the declaration order: {d[:400]}"
+    return None
+
+
+# ---- a rejected component used by several operations: every one of them is accounted for -------------------------------------
+
+def shared_bad_component_cases(tier):
+    out = []
+    for kind in ("param-content-only", "param-bad-schema", "response-missing", "body-missing"):
+        for n in (2, 3):
+            out.append({"kind": kind, "ops": n})
+    return out
+
+
+def shared_bad_component(case):
+    ok = {"200": {"description": ""}}
+    comps = {}
+    ops = {}
+    for i in range(case["ops"]):
+        op = {"operationId": f"op{i}", "responses": dict(ok)}
+        if case["kind"].startswith("param"):
+            op["parameters"] = [{"$ref": "#/components/parameters/P"}]
+        elif case["kind"] == "response-missing":
+            op["responses"]["404"] = {"$ref": "#/components/responses/Nope"}
+        else:
+            op["requestBody"] = {"$ref": "#/components/requestBodies/Nope"}
+        ops[f"/things{i}"] = {"get": op}
+    if case["kind"] == "param-content-only":
+        comps["parameters"] = {"P": {"name": "p", "in": "query", "content": {"application/json": {"schema": {"type": "string"}}}}}
+    elif case["kind"] == "param-bad-schema":
+        comps["parameters"] = {"P": {"name": "p", "in": "query", "schema": {"$ref": "#/components/schemas/Nope"}}}
+    doc = _base(ops, None, **comps)
+    try:
+        data = _parse(doc)
+    except _Timeout:
+        return "parser did not terminate"
+    except BaseException as e:  # noqa
+        return f"parser raised {type(e).__name__}: {str(e)[:100]}"
+    if not hasattr(data, "endpoint_collections_by_tag"):
+        return None          # the whole document is rejected with a diagnostic: accounted for
+    eps = {e.path for c in data.endpoint_collections_by_tag.values() for e in c.endpoints}
+    text = " ".join((e.header or "") + " " + (e.detail or "") for e in _all_errors(data))
+    handled_warn = " ".join((w.header or "") + " " + (w.detail or "") for c in data.endpoint_collections_by_tag.values()
+                            for e in c.endpoints for w in e.errors)
+    for i in range(case["ops"]):
+        path = f"/things{i}"
+        if path in eps:
+            continue
+        if f"GET {path}" not in text and f"{path} " not in text and not text.rstrip().endswith(path):
+            return f"operation GET {path} is neither generated nor named by a diagnostic (diagnostics name: {sorted(set(w for w in text.split() if w.startswith('/things')))})"
     return None
